@@ -18,15 +18,35 @@ def pmag(C, X):
     return sum(abs(c) * aX ** i for i, c in enumerate(C))
 
 
-def terms_ok(C, X):
+def dom(C, X):
+    """None if evaluating sum C_i X^i is outside the domain (a term, coefficient or power over/underflows), else the
+    absolute slack to add to the tolerance. Powers of a tiny |X| that underflow are allowed: whatever a scheme gets for
+    them (0 or a subnormal) changes the result by at most |C_i| * 2^-1072 each."""
     aX = abs(X)
+    slack = Fraction(0)
+    under = False
     for i, c in enumerate(C):
-        if c != 0:
-            if not in_domain(abs(c) * aX ** i) or not in_domain(abs(c)):
-                return False
-            if i and aX != 0 and not in_domain(aX ** i):
-                return False
-    return True
+        if c == 0:
+            continue
+        if not in_domain(abs(c)):
+            return None
+        p = aX ** i
+        if i and aX != 0 and not in_domain(p):
+            if aX < 1:
+                under = True
+            else:
+                return None
+        if under and i and not in_domain(p):
+            # the power (and possibly the term itself) is subnormal or zero: absolute errors up to 2^-1074 per operation
+            slack += (abs(c) + 8) * Fraction(1, 2 ** 1072)
+            continue
+        if not in_domain(abs(c) * p):
+            return None
+    return slack
+
+
+def terms_ok(C, X):
+    return dom(C, X) is not None
 
 
 def check(mon, ev):
@@ -79,7 +99,9 @@ def check(mon, ev):
     else:
         hi = pmag([Fraction(0)] + FQ[1:], KX)
         dev = abs(peval(FQ, KX) - KY)
-        tol = (4 * (n + 3) + 2) * U * (hi + abs(KY))
+        tol = (4 * (n + 3) + 2) * U * (hi + abs(KY)) + 2 * dom([Fraction(0)] + FQ[1:], KX)
+        if dom([Fraction(0)] + FQ[1:], KX) > 0:
+            mon.count("tiny_knot_with_underflowing_powers")
         mon.count("knot_checked")
         mon.ratio(ratio(dev, tol), lambda: wit({"check": "through knot"}))
         if dev > tol:
@@ -103,7 +125,7 @@ def check(mon, ev):
             return
         diff = fr(vb) - fr(va)      # the user's subtraction, done exactly here (its rounding is not the library's)
         truth = peval(P1, B_) - peval(P1, A_)
-        tol = (4 * (n + 3) + 4) * U * (pmag(Q, A_) + pmag(Q, B_))
+        tol = (4 * (n + 3) + 4) * U * (pmag(Q, A_) + pmag(Q, B_)) + 2 * (dom(Q, A_) + dom(Q, B_))
         dev = abs(diff - truth)
         mon.count("area_checked")
         mon.ratio(ratio(dev, tol), lambda: wit({"check": name + " area"}))
